@@ -18,7 +18,11 @@ ASSUMPTIONS = ["objective totals are compared with 1e-9 relative tolerance (floa
 
 def gen_cases(rng, n):
     for i in range(n):
-        d = problems.rand_small_problem(rng, objectives=(i % 2 == 1))
+        from props import C04
+        for _try in range(10):
+            d = problems.rand_small_problem(rng, objectives=(i % 2 == 1))
+            if C04.wellformed(d["constraints"], d["sequence"]):
+                break
         if i % 2 == 1 and rng.random() < 0.25:
             # the same direct search on a circular problem: totals are those of the evaluations the problem lists
             d["circular"] = True
@@ -47,7 +51,10 @@ def feasible(p, s):
     old = p.sequence
     object.__setattr__(p, "sequence", s)
     try:
-        return p.all_constraints_pass()
+        # every constraint fully evaluated: a member of the space satisfies the enforced ones by construction (C04), so on
+        # well-formed problems this is what the search decides, and it does not trust the `enforced` flags
+        return all(c.evaluate(p).passes for c in p.constraints) if not type(p).__name__.endswith("CircularDnaOptimizationProblem") \
+            else p.all_constraints_pass(autopass=False)
     finally:
         object.__setattr__(p, "sequence", old)
 
